@@ -117,6 +117,11 @@ func (P *Prog) lemmaObls(lm *Lemma) (obls []*Obligation) {
 
 // useLemma applies a lemma: its requires become obligations, its ensures are assumed.
 func (x *Exec) useLemma(st *State, env *Env, u *Expr, props []string) {
+	if u.Op == "assume" {
+		st.assume(x.evalSpec(u.Args[0], env).T)
+		x.usedExt["explicit assumption: "+u.Src] = true
+		return
+	}
 	guard := "true"
 	if u.Op == "guarded" {
 		guard = x.evalSpec(u.Args[0], env).T
